@@ -357,8 +357,9 @@ def ref_outside_source(opt, path):
             t = None if t is None else ref_fix(t)
             if t is not None:
                 return (linguistic(t), 'pathname', True)
-    if path.endswith('.po'):
-        stem = path.rsplit('/', 1)[-1][:-3]
+    base = path.rsplit('/', 1)[-1]
+    if base.endswith('.po') and base[:-3].strip('.') != '':        # `<dots>po` has no extension: not `<language>.po`
+        stem = base[:-3]
         t = ref_parse(stem)
         if t is not None and t[2] is None:
             t = ref_fix(t)
@@ -571,10 +572,9 @@ def prop_munch(s):
     return None
 
 def reachable(case):
-    """can `Checker.check()` hand this path to check_language without the hidden --file-type option?"""
-    path = case[2]
-    ext = os.path.splitext(path)[-1]
-    return ext in ('.po', '.pot', '.mo', '.gmo')
+    """can `Checker.check()` hand this path to check_language?  Every path can, under the hidden --file-type option; since /repo
+    d16b49e (base name gate = os.path.splitext, not endswith('.po')) check_language must not raise for any of them."""
+    return True
 
 def prop_check(case):
     """clause 3 on the real code for one (option, path, Language, X-Poedit-*) combination"""
@@ -588,7 +588,7 @@ def prop_check(case):
         return None
     if got.startswith('err '):
         if not reachable(case):
-            return None       # only under --file-type: documented, not counted
+            return None       # (unreachable: every path counts)
         rep.update(kind='check-language-crash', observed=got, expected=want, key='check-crash:' + got[4:] + ':' + path[:40])
         return rep
     cls = 'none-in-path' if '/None/' in path else path[:30] + '|' + ','.join(metas)[:30]
